@@ -1,3 +1,5 @@
+//go:build verif
+
 // Package sync is the scheduler-controlled stand-in for the standard sync
 // package (godi's imports are redirected here by the rewriter). Outside a
 // controlled execution every type behaves exactly like the real one.
